@@ -54,6 +54,39 @@ def physics_cases(seed, thorough=False):
         yield {'name': a.name, 'ok': not problems, 'detail': '; '.join(problems[:3]) + (f" [{n_ok} temperatures]" if problems else '')}
 
 
+def stored_constant_cases():
+    """the stored molar mass -- what molar_mass() returns when the backend is unavailable or calculate=False, and what every
+    molar <-> mass conversion is then scaled with -- agrees with the backend's (1e-3 relative) for every backend-linked shipped
+    adsorbate, in the JSON source list and in the packaged database"""
+    import os
+    import pygaps
+    import pygaps.parsing.sqlite as S
+    pygaps.logger.disabled = True
+    db = os.path.join(os.path.dirname(pygaps.__file__), 'data', 'default.db')
+    sources = {'json_list': list(pygaps.ADSORBATE_LIST), 'packaged_database': S.adsorbates_from_db(db_path=db, verbose=False)}
+    for src, ads in sources.items():
+        bad = []
+        n = 0
+        for a in ads:
+            st = a.properties.get('molar_mass')
+            if not a.properties.get('backend_name') or st is None:
+                continue
+            try:
+                bm = a.backend.molar_mass() * 1000
+            except Exception:
+                continue
+            n += 1
+            if not abs(float(st) - bm) <= 1e-3 * bm:
+                bad.append(f"{a.name}: stored {st}, backend {bm:.4f}")
+        yield {'name': f"stored_molar_mass_agrees_with_backend|{src}", 'ok': n > 50 and not bad, 'detail': '; '.join(bad[:4]) or f"{n} adsorbates compared"}
+
+
+@replayer('c20.stored')
+def _stored(spec, model):
+    bad = [r for r in stored_constant_cases() if not r['ok']]
+    return {'confirmed': bool(bad), 'observed': [(b['name'], b['detail']) for b in bad], 'expected': 'stored molar mass within 1e-3 of the backend value'}
+
+
 @replayer('c20.physics')
 def _ph(spec, model):
     for r in physics_cases(0, thorough=True):
